@@ -37,12 +37,13 @@ MODELLED = {
     "Flatte", "FlatteC", "one", "exp", "exp_com", "x",
     # round 3 (templates/LineShapeX.lean.in, templates/InterpAmp.lean.in, Props/C15c, C15d)
     "Flatte2", "FlatteGen", "LASS", "MultiBW", "Kmatrix", "KMatrixSingleChannel", "KmatrixSimple",
+    # round 5 (templates/LineShapeE.lean.in, Props/C15e): the code of KMatrixSplitLS as it is (1-2 partial waves)
+    "KMatrixSplitLS",
     "interp", "interp_c", "interp_hist", "hist_idx", "interp1d3", "interp_l3", "interp_lagrange", "linear_npy", "linear_txt",
     "spline_c", "spline_c_idx",
 }
 # documented, compared with an independent oracle in `search`, but NOT inside the Lean model
 ORACLE_ONLY = {
-    "KMatrixSplitLS": "the implementation does not follow its docstring even for one pole and one S-wave (listed finding %s); a Lean mirror of get_ls_amp would need tf.linalg.inv of an n_ls x n_ls complex matrix" % KEY_SPLITLS,
     "sppchip": "shape-preserving PCHIP with data-dependent branches and a per-interval 4x4 np.linalg.inv; compared with scipy.interpolate.PchipInterpolator (the docstring's own reference) inside the node range only",
 }
 # registered, but no closed formula in the documentation
@@ -527,8 +528,9 @@ def cases_lineshape(rng, quick, obs, obx):
             elif nch == 2:
                 case["lean"] = ["C15x ksim2 %d %d %d %s" % (chans[0]["l"], chans[1]["l"], npole, B.fl([eps, 3.0, mm] + pm + head + chblock(chans[0]) + chblock(chans[1]))) for mm in m]
                 case["lean_multi"] = 2
-            else:
-                case["lean"] = []
+            else:  # three channels: Cramer's rule (templates/LineShapeE.lean.in, round 5)
+                case["lean"] = ["C15e ksim3 %d %d %d %d %s" % (chans[0]["l"], chans[1]["l"], chans[2]["l"], npole, B.fl([eps, 3.0, mm] + pm + head + chblock(chans[0]) + chblock(chans[1]) + chblock(chans[2]))) for mm in m]
+                case["lean_multi"] = 3
             yield case
     # ---- KMatrixSplitLS: oracle only
     for rep in range(nrep):
